@@ -34,7 +34,7 @@ func driverFuncs(c *core.Ctx) []*ssa.Function {
 }
 
 func c19(c *core.Ctx) map[string]interface{} {
-	c.Explanation = "Static error-discipline check for fail-stop (C19). Decided: (R19.exit) stgutg.ManageError, on a non-nil error, reaches os.Exit with a non-zero constant on every path and never returns; (R19.check) for every call of (*sctp.SCTPConn).Read/Write, ngap.Decoder and tglib.ConnectToAmf in the functions of main/stgutg reachable from main, every path from the call to the next I/O or decode call, to a use of a co-returned value, or to a return passes through ManageError applied to that call's own error value; (R19.norecover) no recover() in main/stgutg/tglib; (R19.banner) nothing that performs I/O follows the completion banner, and the banner is only reachable after the procedure loops. NOT decided: the wall-clock bound of a blocked SCTP read (kernel behaviour), and whether ngap.Decoder reports every undecodable input as an error (that is C14/C03)."
+	c.Explanation = "Static error-discipline check for fail-stop (C19). Decided: (R19.exit) stgutg.ManageError, on a non-nil error, reaches os.Exit with a non-zero constant on every path and never returns; (R19.check) for every call of (*sctp.SCTPConn).Read/Write, ngap.Decoder and tglib.ConnectToAmf in the functions of main/stgutg reachable from main, every path from the call to the next I/O or decode call, to a use of a co-returned value, or to a return passes through ManageError applied to that call's own error value; (R19.norecover) no recover() in main/stgutg/tglib; (R19.banner) nothing that performs I/O follows the completion banner, and the banner is only reachable after the procedure loops. (R19.oneread) no Read of the signalling procedures (or of a helper they call) is repeated in a loop driven by the received bytes; (components) the rule set of C14 (every read of the NGAP decoder is bounds-checked against the input with a fresh cursor, so truncated or over-announcing input is refused rather than completed from stale buffer contents). NOT decided: the wall-clock bound of a blocked SCTP read (kernel behaviour)."
 	c.Assumptions = []string{
 		"os.Exit terminates the process (standard library)",
 		"a panic (e.g. nil dereference on an unexpected but decodable message) terminates the process with a non-zero status",
@@ -44,6 +44,10 @@ func c19(c *core.Ctx) map[string]interface{} {
 	r19check(c)
 	r19norecover(c)
 	r19banner(c)
+	r19oneread(c)
+	// "bytes that are not a decodable NGAP message" end the run only if the decoder refuses them:
+	// the decoder's totality/refusal obligations (C14) are part of this check
+	include(c, "C14")
 	return nil
 }
 
@@ -494,4 +498,41 @@ func callHasConstString(call *ssa.Call, sub string) bool {
 		visit(a, 0)
 	}
 	return found
+}
+
+// r19oneread: a reply is consumed by exactly one Read. A Read inside a loop in the
+// signalling procedures (or in a helper they call) waits for further data whose
+// arrival the peer's bytes decide: an AMF that sends garbage announcing more than it
+// delivers, and then stays silent, keeps the emulator blocked for ever instead of
+// letting the decode of what arrived fail.
+func r19oneread(c *core.Ctx) {
+	const R = "R19.oneread"
+	c.Rule(R, "no (*SCTPConn).Read of the signalling procedures sits in a loop: each reply is one Read followed by its decode")
+	var entries []*ssa.Function
+	for _, n := range []string{"ManageNGSetup", "RegisterUE", "DeregisterUE", "EstablishPDU", "ReleasePDU", "ModifyPDU", "ServiceRequest"} {
+		if f := c.P.Func(pStg, n); f != nil {
+			entries = append(entries, f)
+		}
+	}
+	if len(entries) < 5 {
+		c.Undecided("R19.oneread: only %d procedure drivers found", len(entries))
+	}
+	n := 0
+	for _, f := range sortedFuncs(staticReach(entries...)) {
+		pp := fnPkgPath(f)
+		if pp != pStg && pp != pTglib {
+			continue
+		}
+		ord := ordinals{}
+		for _, ci := range core.CallsTo(f, pSctp+".SCTPConn.Read") {
+			n++
+			key := shortName(core.FuncName(f)) + ":" + ord.next("SCTPConn.Read")
+			b := ci.Block()
+			inLoop := core.Reaches(b, b)
+			c.Check(!inLoop, R, key, ci.Pos(), "read once", "this Read is inside a loop of %s: how often it is repeated depends on the bytes received, so a peer that announces more data than it sends blocks the emulator for ever (no exit, no error)", shortName(core.FuncName(f)))
+		}
+	}
+	if n < 3 {
+		c.Undecided("R19.oneread: only %d Read call sites found below the procedure drivers (expected about 17)", n)
+	}
 }
